@@ -1618,6 +1618,10 @@ class InitialBHPopulation:
         As = Ns / Pk(alphas, 1, *bins_MS)
         Ms = As * Pk(alphas, 2, *bins_MS)
 
+        # (a turn-off bin truncated to zero width holds its lower-edge mass)
+        thin = np.isnan(Ms)
+        Ms[thin] = Ns[thin] * bins_MS.lower[thin]
+
         # Stellar losses
         out.Ns_lost = init_N.MS.sum() - Ns.sum()
         out.Ms_lost = init_M.MS.sum() - Ms.sum()
